@@ -121,6 +121,11 @@ def _library_defect(case):
         return None
 
 
+def _library_alone_single(single):
+    """(for Check.isolate) single = (plane, [case]): does the codec library alone fail on this case's data?"""
+    return _library_defect(single[1][0])
+
+
 def sig(case, sym):
     parts = case["chain"].split("+")
     return {"symptom": sym, "chain": case["chain"], "header": case["header"], "target": case["target"][:2],
@@ -255,6 +260,28 @@ def _judge_in_child(a):
     return r, bool(r) and _library_defect(case)
 
 
+def _fresh_interpreter(case):
+    """Replay one case in a brand-new interpreter (python -m mc.replay): -> (exit status, last output line).
+    0 = holds, 1 = an ordinary violation was reproduced, anything else = the interpreter died or hung."""
+    import json
+    import subprocess
+    import sys
+    import tempfile
+
+    from mc.core.evidence import jsonable
+
+    with tempfile.NamedTemporaryFile("w", suffix=".json", dir="/dev/shm", delete=False) as f:
+        json.dump({"module": MODULE, "property": "C01", "what": "fresh-interpreter confirmation", "case": jsonable({"case": case})}, f)
+    try:
+        r = subprocess.run([sys.executable, "-m", "mc.replay", f.name], cwd=os.path.dirname(os.path.dirname(os.path.dirname(os.path.abspath(__file__)))),
+                           capture_output=True, text=True, timeout=600)
+        return r.returncode, (r.stdout.strip().splitlines() or [""])[-1][:300]
+    except subprocess.TimeoutExpired:
+        return -999, "timeout"
+    finally:
+        os.remove(f.name)
+
+
 def shard(task):
     kind, arg = task
     sh = Shard()
@@ -281,7 +308,16 @@ def shard(task):
                         if st3 != "ok" or val3:
                             r, libdefect = [("child-died", "")], True  # the codec libraries alone misbehave on this input
                         else:
-                            r, libdefect = [("interpreter-died" if st == "crash" else "hang", f"the process {'died (%s)' % val if st == 'crash' else 'hung'} while py7zr handled this case, twice; the codec libraries alone handle it")], False
+                            # a forked child inherits the worker's memory, pyppmd's state after earlier cases included: the
+                            # death counts only if a brand-new interpreter dies on this case as well
+                            rc, tail = _fresh_interpreter(case)
+                            if rc == 0:
+                                sh.count("child_death_depends_on_process_history")
+                                r, libdefect = [], False
+                            elif rc == 1:
+                                r, libdefect = [("fresh-interpreter-violation", tail)], False
+                            else:
+                                r, libdefect = [("interpreter-died" if st == "crash" else "hang", f"the process {'died (%s)' % val if st == 'crash' else 'hung'} while py7zr handled this case, in two forked children and in a fresh interpreter (exit {rc}); the codec libraries alone handle it")], False
             else:
                 r = run_case(case, wd, modes=modes)
                 libdefect = bool(r) and _library_defect(case)
@@ -399,7 +435,8 @@ def main(tier="quick", seed=0, only=None):
     with Pool() as pool:
         res = pool.map(f"{MODULE}:shard", tasks, soft=900, hard=1000)
     res = chk.isolate(f"{MODULE}:shard", tasks, res, split=lambda t: [(t[0], [c]) for c in t[1]] if t[0] != "P3" else [],
-                      case_of=lambda s: {"case": s[1][0]}, sig_of=lambda s, st: sig(s[1][0], "interpreter-died" if st == "crash" else "hang"))
+                      case_of=lambda s: {"case": s[1][0]}, sig_of=lambda s, st: sig(s[1][0], "interpreter-died" if st == "crash" else "hang"),
+                      library_alone=_library_alone_single)
     for t, r in zip(tasks, res):
         chk.merge_pool([r], plane=t[0])
     if not only or "P7" in only:
@@ -421,6 +458,8 @@ def main(tier="quick", seed=0, only=None):
         assumptions=[
             "scaled planes rebind get_default_blocksize/get_memory_limit (the only size constants on the data path); anomalies are confirmed at real constants before being reported",
             "7zAES key derivation is memoised (pure function); IVs stay random",
+            "a case that kills the interpreter is not judged when the codec library alone dies or fails on the same data (pyppmd 1.1.1 segfaults on some incompressible inputs of 2 MiB)",
+            "BCJ+PPMd cases run in forked children; a child's death is reported only if a brand-new interpreter dies on the same case too (a forked child inherits pyppmd's state from the worker)",
         ],
         exhaustive=False,
         p3_deviation_bound=bound,
